@@ -241,7 +241,7 @@ def errline_rule(m, rid, tier):
 END_RE = re.compile(r"^\s*(\d+\s+)?end\b", re.I)
 # opening statements whose removal leaves an END without a partner (not PROGRAM: a main program needs none; not a label-terminated DO:
 # its terminal statement is an ordinary labelled statement)
-OPEN_RE = re.compile(r"^\s*(\d+\s+)?(\w+\s*:\s*)?(module\s+\w+\s*$|subroutine|function|integer function|do\s+(?!\d)|if\b.*\bthen\s*$|select|where\s*\(.*\)\s*$|forall\s*\(.*\)\s*$|associate|type\s*::|interface|block\s*$|critical\s*$|submodule)", re.I)
+OPEN_RE = re.compile(r"^\s*(\d+\s+)?(\w+\s*:\s*)?(module\s+\w+\s*$|subroutine|function|integer function|do\s+(?!\d)|if\b.*\bthen\s*$|select|where\s*\(.*\)\s*$|forall\s*\(.*\)\s*$|associate|type\s*::|interface|block\s*$|block\s+data\b|critical\s*$|submodule)", re.I)
 
 
 def one_line_form(line):
@@ -265,12 +265,15 @@ def nesting_rule(m, rid, tier):
     run = Run(m, r)
     rng = random.Random("nesting")
     for std, table in (("f2003", PS.VALID), ("f2008", PS.VALID_2008)):
-        for name in pick(table, tier, 3 if std == "f2003" else 1):
+        names_ = pick(table, tier, 3 if std == "f2003" else 1)
+        if std == "f2003" and "blockdata" not in names_:
+            names_ = names_ + ["blockdata"]      # (small; the one unit whose name check does not go through a scoping region)
+        for name in names_:
             src = table[name]
             lines = src.rstrip("\n").split("\n")
             ends = [k for k, l in enumerate(lines) if END_RE.match(l)]
             opens = [k for k, l in enumerate(lines) if OPEN_RE.match(l) and not END_RE.match(l) and not one_line_form(l)]
-            named_ends = [k for k in ends if re.search(r"end\s+\w+\s+\w+\s*$", lines[k], re.I)]
+            named_ends = [k for k in ends if re.search(r"end\s+(?:block\s+data|\w+)\s+\w+\s*$", lines[k], re.I)]
             parens = [k for k, l in enumerate(lines) if "(" in l.split("!")[0] and "'" not in l and '"' not in l]
             muts = []
             for k in ends:
@@ -631,7 +634,23 @@ def symtab_rule(m, rid, tier):
         if not ok2:
             run.fail("intrinsic|block", "program 'block': `i = sin` inside the BLOCK that declares sin is regenerated as %r"
                      % next((l.strip() for l in str(res[1]).split("\n") if l.strip().lower().startswith("i = s")), "?"))
-    r.floor = 4
+    # a BLOCK that is read twice (the enclosing labelled DO is first tried as a block DO, then read again as an action-term DO, its
+    # statements served from the per-line cache): still one table, holding the declaration
+    res = run.parse("f2008", PS.VALID_2008["blockdo"], ignore_comments=True)
+    if res is not None:
+        r.instances += 1
+        got = None
+        if res[0] == "tree":
+            snap, closed = tables_snapshot(world(m, "f2008"))
+            got = [(t[0], [s_[0] for s_ in t[1]], [(c[0].split(":")[0], [s_[0] for s_ in c[1]]) for c in t[3]]) for t in snap]
+        ok = got == [("scale", ["a", "i", "n"], [("block", ["t"])])] and closed
+        r.ob(ok, "blockdo: %r" % (got,))
+        if not ok:
+            run.fail("tables|blockdo", "program 'blockdo' (f2008, a BLOCK in the body of `do 10 ... / 10 a(i) = ...`): %s; expected table scale "
+                     "with a, i, n and one nested table (the BLOCK) with t -- the loop body is read twice, and the second reading must "
+                     "neither add a second table nor lose the declaration"
+                     % ("the symbol tables are %r" % (got,) if got is not None else "rejected with %s %s" % (res[1], (res[2] or "")[:60])))
+    r.floor = 5
     return r
 
 
